@@ -26,6 +26,7 @@ func runC12(c *Ctx) {
 	c.rule("kind-table", "in each kind arm of the registration switch the reflect type converted to, the asserted Go type and the arm's kind agree", 30)
 	c.rule("typed-registration", "in the pflag source (which relies on pflag's typed flags for range checking) the template value asserted to the arm's numeric type reaches the registration method without a widening conversion", 1)
 	c.rule("default-nameconfig", "(sibling agreement) DefaultFlagNameConfig of both flag packages returns a freshly allocated NameConfig with FieldNameEncodeCasing = EncodeUpperCamelCase and TagEncodeCasing = EncodeKebabCase", 2)
+	c.rule("ptr-valued-flag-arm", "(sibling agreement) both Visit callbacks set a non-pointerified field (slice or map kind) from the pointee of a flag value that is a pointer to the field's own type", 2)
 	c.rule("parse-once", "both Value methods parse the flag set only under !s.Flags.Parsed()", 2)
 	c.rule("flag-name-recorded", "in both flag packages every flag name computed for a field is recorded in the name->field table on every path of that loop iteration (in particular before the 'flag already registered by the application' skip)", 2)
 	c.rule("helper-writes-through", "every pointer-backed flag helper the pflag source constructs (and whose pointer it keeps to read the value back) writes through that pointer in Set and never re-binds it", 5)
@@ -169,6 +170,7 @@ func runC12(c *Ctx) {
 	c12PflagTypedRegistration(c)
 	c12ParseOnce(c)
 	c12DefaultNameConfig(c, "default-nameconfig")
+	c12PtrValuedFlagArm(c, "ptr-valued-flag-arm")
 }
 
 func c12FromGetField(v ssa.Value, getField *ssa.Function, d int) bool {
@@ -449,6 +451,87 @@ func c12Narrowing(c *Ctx, val *ssa.Function) {
 		// receiver is the target, argument derives from the value
 		recvOK := call.Call.Args[0] == ssa.Value(wo.Params[1])
 		c.check(okK && recvOK, "narrowing-guard", "willOverflow#"+t.m[strings.LastIndex(t.m, ".")+1:], call.Pos(), t.m+" covers "+kindSetString(ks)+" on the target", t.m+" is reached only for "+kindSetString(ks)+": a kind of this class is never range-checked")
+	}
+	// the float32 path: the flag holds a float64, and the decimal the user typed is in range for a float32 leaf
+	// exactly when it rounds to a finite float32 (D37). Where willOverflow branches on the target being a float32,
+	// the verdict on that branch must be "v is finite and float32(v) is infinite" - with the narrowing conversion
+	// actually performed.
+	for _, b := range wo.Blocks {
+		iff, ok := b.Instrs[len(b.Instrs)-1].(*ssa.If)
+		if !ok {
+			continue
+		}
+		cmp, ok := iff.Cond.(*ssa.BinOp)
+		if !ok || cmp.Op != token.EQL {
+			continue
+		}
+		kc, ok := cmp.X.(*ssa.Call)
+		if !ok || calleeFullName(kc) != "(reflect.Value).Kind" || kc.Call.Args[0] != ssa.Value(wo.Params[1]) {
+			continue
+		}
+		if kv, isC := constInt(cmp.Y); !isC || kv != kFloat32 {
+			continue
+		}
+		arm := b.Succs[0]
+		isValFloat := func(v ssa.Value) bool {
+			cc, ok := v.(*ssa.Call)
+			return ok && calleeFullName(cc) == "(reflect.Value).Float" && cc.Call.Args[0] == ssa.Value(wo.Params[0])
+		}
+		pbf := &predBuilder{name: func(v ssa.Value) string {
+			cc, ok := v.(*ssa.Call)
+			if !ok || calleeFullName(cc) != "math.IsInf" {
+				return ""
+			}
+			a := cc.Call.Args[0]
+			if isValFloat(a) {
+				return "vInf"
+			}
+			// float64(float32(v))
+			if c1, ok := a.(*ssa.Convert); ok {
+				if c2, ok := c1.X.(*ssa.Convert); ok && types.TypeString(c2.Type(), nil) == "float32" && isValFloat(c2.X) {
+					return "narrowInf"
+				}
+				if types.TypeString(c1.Type(), nil) == "float32" && isValFloat(c1.X) {
+					return "narrowInf"
+				}
+			}
+			return ""
+		}}
+		var res formula = fConst{false}
+		nr := 0
+		for _, r := range returnsOf(wo) {
+			if r.Block() != arm && !arm.Dominates(r.Block()) {
+				continue
+			}
+			nr++
+			res = mkOr(res, mkAnd(pbf.pathCond(arm, r.Block()), pbf.valueFormula(retVals(r)[0], 0)))
+		}
+		if nr == 0 {
+			continue
+		}
+		c.checkTable("narrowing-guard", "willOverflow#float32-by-rounding", kc.Pos(), res, []string{"vInf", "narrowInf"}, nil, "!IsInf(v) && IsInf(float32(v))", func(e env) bool {
+			return !e.B["vInf"] && e.B["narrowInf"]
+		})
+	}
+	// ... and OverflowFloat (which compares the float64 with MaxFloat32) is not what decides for a float32 target
+	for _, i := range allInstrs(wo) {
+		of, ok := i.(*ssa.Call)
+		if !ok || calleeFullName(of) != "(reflect.Value).OverflowFloat" {
+			continue
+		}
+		excl := false
+		for _, ec := range condsDominating(of.Block()) {
+			cmp, ok := ec.Cond.(*ssa.BinOp)
+			if !ok || cmp.Op != token.EQL || ec.Val {
+				continue
+			}
+			if kc, ok := cmp.X.(*ssa.Call); ok && calleeFullName(kc) == "(reflect.Value).Kind" && kc.Call.Args[0] == ssa.Value(wo.Params[1]) {
+				if kv, isC := constInt(cmp.Y); isC && kv == kFloat32 {
+					excl = true
+				}
+			}
+		}
+		c.check(excl, "narrowing-guard", "willOverflow#float32-not-by-OverflowFloat", of.Pos(), "OverflowFloat decides only for float64 targets", "a float32 target is range-checked with OverflowFloat on the float64 the flag parsed: the shortest text of MaxFloat32 (3.4028235e+38, the advertised default of such a leaf) is slightly above MaxFloat32 as a float64 and is rejected")
 	}
 	// error-not-value
 	okE := false
@@ -888,5 +971,62 @@ func c12TypeArmTable(c *Ctx, reg *ssa.Function, short, rule string) {
 		okT := types.Identical(gt, ta.AssertedType) || types.Identical(types.NewPointer(gt), ta.AssertedType)
 		c.check(okT, rule, name, ta.Pos(), "arm "+g.Name()+" ("+types.TypeString(gt, nil)+"): the field is asserted to that type (or its pointer)",
 			"in the arm for "+g.Name()+" = "+types.TypeString(gt, nil)+" the field is asserted to "+types.TypeString(ta.AssertedType, nil)+": the unchecked assertion panics while the flags are registered, whatever the arguments")
+	}
+}
+
+// c12PtrValuedFlagArm (sibling agreement): a leaf of slice or map kind keeps its own (nil-able) type after
+// pointerification while its flag helper holds a pointer to it (text-unmarshalable net.IP, *[]string): both Visit
+// callbacks need the arm "the flag's value is a pointer to the field's type -> set the field from its pointee"
+// (D36: the std flag source lacked it and no net.IP flag could ever be set).
+func c12PtrValuedFlagArm(c *Ctx, rule string) {
+	w := c.W
+	for _, rel := range []string{"sources/flag", "sources/pflag"} {
+		val := w.fn(rel, "Set.Value")
+		if !c.need(val != nil, rel+".Set.Value") {
+			continue
+		}
+		found := false
+		var pos token.Pos = val.Pos()
+		for _, cl := range val.AnonFuncs {
+			for _, i := range allInstrs(cl) {
+				set, ok := i.(*ssa.Call)
+				if !ok || calleeFullName(set) != "(reflect.Value).Set" {
+					continue
+				}
+				el, ok := set.Call.Args[1].(*ssa.Call)
+				if !ok || calleeFullName(el) != "(reflect.Value).Elem" {
+					continue
+				}
+				ff, fv := set.Call.Args[0], el.Call.Args[0]
+				typeOf := func(v ssa.Value, of ssa.Value) bool {
+					cc, ok := v.(*ssa.Call)
+					return ok && calleeFullName(cc) == "(reflect.Value).Type" && sameValue(cc.Call.Args[0], of)
+				}
+				ptrToField := func(v ssa.Value) bool {
+					cc, ok := v.(*ssa.Call)
+					if !ok {
+						return false
+					}
+					switch calleeFullName(cc) {
+					case "reflect.PtrTo", "reflect.PointerTo":
+						return typeOf(cc.Call.Args[0], ff)
+					case "(reflect.Value).Type":
+						ad, ok := cc.Call.Args[0].(*ssa.Call)
+						return ok && calleeFullName(ad) == "(reflect.Value).Addr" && sameValue(ad.Call.Args[0], ff)
+					}
+					return false
+				}
+				for _, ec := range condsDominating(set.Block()) {
+					b, ok := ec.Cond.(*ssa.BinOp)
+					if !ok || b.Op != token.EQL || !ec.Val {
+						continue
+					}
+					if (typeOf(b.X, fv) && ptrToField(b.Y)) || (typeOf(b.Y, fv) && ptrToField(b.X)) {
+						found, pos = true, set.Pos()
+					}
+				}
+			}
+		}
+		c.check(found, rule, rel, pos, "a flag whose value is a pointer to the field's own type sets the field from its pointee", "the Visit callback has no arm for a flag whose value is a pointer to the field's own (non-pointerified) type: a text-unmarshalable leaf of slice or map kind (net.IP) given on the command line is rejected as 'not convertible' and can never be set")
 	}
 }
